@@ -21,16 +21,19 @@ const (
 	shOnlyM
 	shOnlyU
 	shNone
-	shIface // T is an interface type (Both); values are *P or a nil interface
-	shPV    // T is *V: a pointer to a type whose marshalers have value receivers
-	shStr   // T is a string-kinded type
-	shBytes // T is a slice-kinded type
-	shMap   // T is a map-kinded type
-	shNum   // T is an integer-kinded type
-	shByte  // T is a uint8-kinded type
-	shDoc   // T is a struct with an interface-typed field holding a map
-	shMemo  // T is *L, whose String method memoises into the value
-	shPval  // T is P itself: every method has a pointer receiver, so P lacks the marshal interfaces (only *P has them) and is decoded through &value
+	shIface    // T is an interface type (Both); values are *P or a nil interface
+	shPV       // T is *V: a pointer to a type whose marshalers have value receivers
+	shStr      // T is a string-kinded type
+	shBytes    // T is a slice-kinded type
+	shMap      // T is a map-kinded type
+	shNum      // T is an integer-kinded type
+	shByte     // T is a uint8-kinded type
+	shDoc      // T is a struct with an interface-typed field holding a map
+	shMemo     // T is *L, whose String method memoises into the value
+	shTextOnly // T implements the text interfaces only
+	shBinOnly  // T implements the binary interfaces only
+	shJSONOnly // T implements the JSON interfaces only
+	shPval     // T is P itself: every method has a pointer receiver, so P lacks the marshal interfaces (only *P has them) and is decoded through &value
 	numShapes
 )
 
@@ -45,7 +48,7 @@ type Both interface {
 	json.Unmarshaler
 }
 
-var shapeNames = [...]string{"V(value marshalers, pointer unmarshalers)", "*P(pointer type)", "OnlyM", "OnlyU", "None", "Both(interface-typed T holding *P or nil)", "*V(pointer to value-receiver type)", "Str(string kind)", "Bytes(slice kind)", "Map(map kind)", "Num(integer kind)", "Byte(uint8 kind)", "Doc(struct with an interface-typed field holding a map)", "*L(String memoises into the value)", "P(value type whose methods all have pointer receivers)"}
+var shapeNames = [...]string{"V(value marshalers, pointer unmarshalers)", "*P(pointer type)", "OnlyM", "OnlyU", "None", "Both(interface-typed T holding *P or nil)", "*V(pointer to value-receiver type)", "Str(string kind)", "Bytes(slice kind)", "Map(map kind)", "Num(integer kind)", "Byte(uint8 kind)", "Doc(struct with an interface-typed field holding a map)", "*L(String memoises into the value)", "TextOnly", "BinOnly", "JSONOnly", "P(value type whose methods all have pointer receivers)"}
 var helperNames = [...]string{"MarshalText", "UnmarshalText", "MarshalBinary", "UnmarshalBinary", "MarshalJSON", "UnmarshalJSON"}
 
 // listSpec is one helper invocation.
@@ -69,6 +72,12 @@ func (ls listSpec) hasInterface() bool {
 		return ls.dir == dirMarshal
 	case shOnlyU, shPval:
 		return ls.dir == dirUnmarshal
+	case shTextOnly:
+		return ls.enc == kText
+	case shBinOnly:
+		return ls.enc == kBinary
+	case shJSONOnly:
+		return ls.enc == kJSON
 	}
 	return false
 }
@@ -504,6 +513,12 @@ func execList(ls listSpec, keepMsgs bool) (l *listRun, escaped interface{}) {
 			runEnc(l, ls, func(i int, c caseSpec) Byte { return Byte(i + 1) })
 		case shPval:
 			runEnc(l, ls, func(i int, c caseSpec) P { return P{i + 1, c.payload} })
+		case shTextOnly:
+			runEnc(l, ls, func(i int, c caseSpec) TextOnly { return TextOnly{i + 1, c.payload} })
+		case shBinOnly:
+			runEnc(l, ls, func(i int, c caseSpec) BinOnly { return BinOnly{i + 1, c.payload} })
+		case shJSONOnly:
+			runEnc(l, ls, func(i int, c caseSpec) JSONOnly { return JSONOnly{i + 1, c.payload} })
 		case shDoc:
 			runEnc(l, ls, func(i int, c caseSpec) Doc { return Doc{i + 1, c.payload, docBody(i+1, false)} })
 		case shMemo:
